@@ -45,4 +45,20 @@ def litR {α : Type} (lit : List Byte) (p : List Byte) (kmatch kmis : Res α) : 
   | .oob => .oob
   | .nofuel => .nofuel
 
+/-- `if(!readToken()) …`: the call either yields the next parser state or has already recorded an error (line, cursor) -/
+def nextR {α β : Type} (x : Res α) (kok : α → Res β) (kfail : Nat → List Byte → Res β) : Res β :=
+  match x with
+  | .ok a => kok a
+  | .fail l p => kfail l p
+  | .oob => .oob
+  | .nofuel => .nofuel
+
+/-- `if(!parseValue(place)) …`: the recursive call yields (value stored into `place`, next parser state) or an error -/
+def callR {β : Type} (x : Res (Val × St)) (kok : Val → St → Res β) (kfail : Nat → List Byte → Res β) : Res β :=
+  match x with
+  | .ok (v, st) => kok v st
+  | .fail l p => kfail l p
+  | .oob => .oob
+  | .nofuel => .nofuel
+
 end Nstd.Json.Cxx
